@@ -352,7 +352,8 @@ theorem applySub_ok (kp : Nat → Bool) (st : St) (a : Nat) (b : Int) (s : Subta
     · obtain ⟨x, hx, h⟩ := bind_ok h
       split at h
       · cases h
-      · obtain ⟨y, hy, h⟩ := bind_ok h
+      · obtain ⟨p0, hp0, h⟩ := bind_ok h
+        obtain ⟨y, hy, h⟩ := bind_ok h
         split at h
         · cases h
         · injection h with h; injection h with h; injection h with h1 h2; subst h1
